@@ -1217,6 +1217,8 @@ func c11Teardown(rng *rand.Rand, n int, o *Out) {
 		}
 		respond := func(id uint32) {
 			frames := buildRawCallFrames(false, id, rawCallResHeader(0, c11Tracing, [][2]string{{"as", "raw"}}), 1, [3][]byte{{}, []byte("r2"), []byte("r3")}, 60000)
+			// the handshake / a pong left a write deadline on the raw socket that may have passed by now
+			rs.conn.SetWriteDeadline(time.Now().Add(2 * time.Second))
 			for _, fr := range frames {
 				rs.conn.Write(fr)
 			}
@@ -1306,6 +1308,7 @@ func c11Teardown(rng *rand.Rand, n int, o *Out) {
 				nextIn++
 				want := info.InExchanges + 1
 				frames := buildRawCallFrames(true, id, rawCallReqHeader(20000, c11Tracing, ch.ServiceName(), [][2]string{{"as", "raw"}, {"cn", "rawpeer"}}), 1, [3][]byte{[]byte("hold"), []byte("x"), []byte("y")}, 60000)
+				rs.conn.SetWriteDeadline(time.Now().Add(2 * time.Second))
 				for _, fr := range frames {
 					rs.conn.Write(fr)
 				}
@@ -1326,6 +1329,7 @@ func c11Teardown(rng *rand.Rand, n int, o *Out) {
 					return false
 				}
 				frames := buildRawCallFrames(true, inIDs[0], rawCallReqHeader(20000, c11Tracing, ch.ServiceName(), [][2]string{{"as", "raw"}, {"cn", "rawpeer"}}), 1, [3][]byte{[]byte("hold"), []byte("x"), []byte("y")}, 60000)
+				rs.conn.SetWriteDeadline(time.Now().Add(2 * time.Second))
 				for _, fr := range frames {
 					rs.conn.Write(fr)
 				}
@@ -1364,6 +1368,29 @@ func c11Teardown(rng *rand.Rand, n int, o *Out) {
 		// released, the channel is closed, and the clean state of the statement is required
 		// (connection and channel closed, no goroutine of the library left, socket closed).
 		if !peerGone {
+			// a request that was queued behind a blocked write (label 16) when label 10 stopped
+			// waiting for it reaches the peer later (label 17): it is answered as well
+			drain := time.After(50 * time.Millisecond)
+		drainLoop:
+			for {
+				select {
+				case f, ok := <-rs.frames:
+					if !ok {
+						break drainLoop
+					}
+					if f != nil && f.Type == 0x03 {
+						known := false
+						for _, id := range outIDs {
+							known = known || id == f.ID
+						}
+						if !known {
+							outIDs = append(outIDs, f.ID)
+						}
+					}
+				case <-drain:
+					break drainLoop
+				}
+			}
 			for _, id := range outIDs {
 				respond(id)
 			}
